@@ -25,7 +25,7 @@ Accepts(ev) ==
          /\ G("C14", "ReturnedValue", ev.name \in {"index", "index_set", "remove", "get"} => ev.res = Result(op, m))
          /\ (ev.chk = 0 \/
              (/\ G("C14", "GetLocatesExactlyThePresentKeys", ev.get = AsSeq(mm))
-              /\ G("C14", "FindLocatesExactlyThePresentKeys", ev.find = AsSeq(mm))
+              /\ G("C14", "FindLocatesExactlyThePresentKeys", ev.find = AsSeq(mm) /\ ev.cfind = AsSeq(mm))
               /\ G("C14", "SizeIsNumberOfEntries", ev.size = Size(mm) /\ ev.empty = (IF Size(mm) = 0 THEN 1 ELSE 0))
               /\ G("C14", "IterationYieldsEveryEntryOnce", ev.iter = ExpectedIter(mm))))
     [] ev.e \in {"Ctor", "Dtor", "Assign", "Alloc", "Dealloc", "Free", "OpBegin", "OwnerGone"} -> TRUE
